@@ -217,9 +217,11 @@ def compile_known(known):
             out.append(k)
         elif k[0] == 'carve':
             from ..decide import carve_fn
-            out.append(carve_fn(k[1]))
+            out.append((carve_fn(k[1]), carve_fn(k[2]) if len(k) > 2 and k[2] else None))
         elif k[0] == 'native':
             out.append(eval("lambda d: " + k[1], {}))
+        elif k[0] == 'native_pinned':
+            out.append(k)
     return out
 
 
@@ -254,7 +256,9 @@ class NativeGroup(Group):
         from ..native import driver
         fam, n = task
         t = time.time()
-        res = driver.run_native(dict(op='family', family=fam, n=n))
+        pinned = [k[1] for k in known if isinstance(k, tuple) and k[0] == 'native_pinned']
+        known = [k for k in known if callable(k)]
+        res = driver.run_native(dict(op='family', family=fam, n=n, pinned=pinned))
         jobs = []
         fails_by_cls = {}
         known_hits = 0
